@@ -1,13 +1,41 @@
 CFG = dict(
     id="C04", props="Props/C04.v", harness="c04", shims=["c2--c04.go"], tags="verif",
     trusted_base=[
-        "stdlib decoders behind the wrappers/transforms (encoding/hex, encoding/base64, compress/zlib, compress/gzip, crypto/cipher CFB, crypto/elliptic) are not modelled: "
-        "they are only exercised by the harness on hostile input",
-        "allocation is observed as the runtime.MemStats.TotalAlloc delta of each call in a child process under RLIMIT_AS = 3 GiB; "
-        "unsafe.Sizeof of the element types is re-measured by the harness every run and compared with the model constants",
+        "stdlib decoders behind the wrappers/transforms (encoding/hex, encoding/base64, compress/zlib, compress/gzip, crypto/cipher CFB, "
+        "crypto/ecdh) are not modelled: the harness exercises them on hostile input through the real connection handler; for the base64 "
+        "transform their contract (an error, or at most DecodedLen(len p) bytes, no panic) is a hypothesis of C04_b64_shift and the observed "
+        "answer is an input of every correspondence case",
+        "allocation of the implementation is the runtime.MemStats.TotalAlloc delta of the single call, taken in a child process (one goroutine, "
+        "RLIMIT_AS = 3 GiB so that a terabyte make() kills the child, not the check); rule: at most 128*|input| + 1 MiB, for a whole connection "
+        "plus what a valid minimal exchange costs under the same wrapper/transform (measured cold in the same child), smallest of three runs",
+        "model allocation = bytes requested from make/append before the input justifies them; the amortised cost of one append step of a "
+        "[]string (112 bytes: growslice doubling, then a quarter plus 192, size-class rounding) and unsafe.Sizeof of the element types "
+        "(amd64) are constants of the model; model and implementation are compared by allocation CLASS (below / above the rule) with a "
+        "factor-two dead zone, not byte for byte",
+        "the connection handler is driven on a real c2.Server value with a Listener built like Server.ListenContext builds it minus the socket "
+        "and accept goroutine (in-memory net.Conn, events processed synchronously by the real event.process); recover() in the child catches "
+        "what the handler goroutine of a real server would die from",
         "io.Reader sources without short reads (bytes.Reader) for the stream-reader decoders; short reads are C10's subject",
     ],
-    assumptions=["input bytes are arbitrary values in 0..255 (bytes_ok); amd64 (int = 64 bit, MaxSlice = 2^42)"],
-    level_text="placeholder",
-    level_note="placeholder",
+    assumptions=[
+        "input bytes are arbitrary values in 0..255 (bytes_ok); amd64 (int = 64 bit, MaxSlice = 2^42, maxAlloc = 2^48)",
+        "C04_b64_shift: encoding/base64 answers an error or at most len(p)/4*3 bytes and does not panic",
+    ],
+    level_text="Theorems over the Gallina model (Model/Decoders.v: total functions returning Ok/Err/Panic plus an allocation count; every index and "
+               "slice expression of the Go code goes through bound-checked primitives) for ALL byte strings: no decoder panics (DNS transform "
+               "decodePacket(s)/Read, ReadStringList and Bytes over a Chunk and over the stream reader, Packet.Unmarshal and UnmarshalStream, the "
+               "seventeen c2/task/result decoders as instances of one counted-list combinator, Machine/Network/proxy data/readDeviceInfo, base64 "
+               "shift decode) and each allocates at most K*|input| + C with explicit constants (uniformly at most 128*|input| + 1 MiB, the rule "
+               "the harness applies to the implementation). The statements are about the tree after four fix: commits; the pinned-tree "
+               "definitions are kept and refuted by concrete witnesses. The model is tied to /repo by running ~9k generated cases (every "
+               "truncation and single-byte mutation of count/length fields of valid messages, exhaustive short strings, random bytes) through "
+               "the real decoders in a child process and through the same Gallina definitions inside Coq (outcome class, digest of the decoded "
+               "value, allocation class). The whole listener path (handle -> readPacket -> transform/wrapper -> Unmarshal -> talk/talkSub -> "
+               "readDeviceInfo/resolve/process -> receive (Multi, Frag) -> event handlers, and the JSON view of every Session created) is "
+               "exercised oracle-only on ~8k hostile connections over 13 wrapper/transform profiles, before and after registration.",
+    level_note="Proof is about the model; the tie to the code is differential (its strength is that of the generator, distribution in the evidence). "
+               "NOT modelled (oracle-only through the real handler): the Multi/Frag dispatch of receive, tag resolution, the CBK/XOR/AES/hex/zlib "
+               "wrappers, Session.JSON (checked with encoding/json.Valid on every Session the hostile input created). Two known findings: the "
+               "stream reader allocates what a length prefix says (not reachable from a listener), and a compressing wrapper inflates before any "
+               "size check (up to 1032:1). Trusted: Coq kernel+vm_compute, the harness and its allocation measurement, the stdlib decoders. No axioms.",
 )
